@@ -15,7 +15,7 @@ from . import ppreplay
 LOOK = [ord(c) for c in 'TXP#-/ \tA' + 'runx']       # look-alike alphabet for text bytes
 
 
-def h_text(m, ctx, lens, les, final_newline, trailing=True, alpha='ascii'):
+def h_text(m, ctx, lens, les, final_newline, trailing=True, alpha='ascii', pre_out_len=None):
     """directive-free source: every line is n symbolic bytes assumed (by G1) to be ordinary text"""
     it = Interp(m, ctx)
     dom = ASCII_LINE if alpha == 'ascii' else LOOK
@@ -30,9 +30,11 @@ def h_text(m, ctx, lens, les, final_newline, trailing=True, alpha='ascii'):
         if grammar.classify(ctx, l) is not None:
             return                                   # not a directive-free source: outside this clause
     se = SymEnv(ctx, inc_len=0, out_len=0)
-    env = se.install(it, source)
+    pre_out = ctx.fresh_bytes('po', pre_out_len, ASCII_ALL) if pre_out_len is not None else None       # the output of an older version
+    env = se.install(it, source, pre_out=pre_out)
     r = run_preprocess(m, it, 'Build', False, trailing)
-    data = {'op': 'pp', 'source': syms_of(source), 'inc': [], 'cmd_results': [], 'trailing': trailing, 'source_shown': show_bytes(source)}
+    data = {'op': 'pp', 'source': syms_of(source), 'inc': [], 'cmd_results': [], 'trailing': trailing, 'source_shown': show_bytes(source),
+            'pre_out': syms_of(pre_out) if pre_out is not None else None}
     if r.idx != 0:
         violation(ctx, 'a source without directives failed to build', data)
     le = tuple(les[0]) if (len(lines) > 1 or final_newline) else (10,)
@@ -211,6 +213,12 @@ def jobs(tier):
     for sc in (['write bare', 'cont prefix'], ['text', 'write bare', 'cont prefix', 'text'], ['write bare', 'cont bare', 'cont prefix']):
         js.append({'name': 'write with an empty first line: ' + '/'.join(sc), 'harness': ('props.c01', 'h_conform'),
                    'params': {'nlines': len(sc), 'menu_name': 'small', 'fixed': sc, 'inc_len': 0, 'out_len': 0}})
+    for sc in (['temp tab', 'cont hash'], ['run tab', 'cont hash'], ['empty tab', 'text'], ['text', 'temp tab']):
+        js.append({'name': 'a TAB after the directive name makes the line ordinary text: ' + '/'.join(sc), 'harness': ('props.c01', 'h_conform'),
+                   'params': {'nlines': len(sc), 'menu_name': 'small+', 'fixed': sc, 'le_choices': (b'\n',), 'inc_len': 0, 'out_len': 0}})
+    for n in (0, 1, 3):
+        js.append({'name': 'text 1 line n=%d over the output of an older version' % n, 'harness': (H, 'h_text'),
+                   'params': {'lens': [n], 'les': (b'\n',), 'final_newline': n > 0, 'pre_out_len': 4}})
     js.append({'name': 'text no-trailing', 'harness': (H, 'h_text'), 'params': {'lens': [3, 2], 'les': (b'\n',), 'final_newline': True, 'trailing': False}})
     shapes = [[(0, 1)], [(1, 1), (0, 0)], [(None, 3), (2, 1)], [(3, 1), (3, 0), (4, 1)], [(5, 0), (None, 2)], [(6, 2), (1, 0), (None, 2)]]
     if not quick:
